@@ -185,6 +185,13 @@ class EnumV(Val):
 
 
 @dataclass
+class StarV(Val):
+    """*expr in a call where expr is not a literal sequence: expanded against the callee's signature"""
+
+    inner: Val
+
+
+@dataclass
 class BoundExt(Val):
     """Method of an external / opaque receiver: recv.meth"""
 
